@@ -3,12 +3,10 @@
    error, and after one normalising round the encoding is stable.
    Property theorems only; proofs are in Proofs/RoundTrip.v.
 
-   The theorems are about the model of the tree WITH the C24 repair (a v5
-   reference-id request whose payload is not a whole number of words is rejected
-   by the decoder).  Whether the repair is present is read from the sources
-   (Gen.ConstPacket.C24_REPAIR); on a tree without it [repaired_intro eq_refl] does
-   not type-check, the proof gate fails, and the check's monitor reports the
-   concrete datagram whose re-encoding panics. *)
+   The model is the tree WITH the C24 repair (branch fix-c24: a v5 reference-id
+   request whose payload is not a whole number of words is rejected by the
+   decoder).  On the unrepaired tree the correspondence differs on exactly that
+   class and the check's monitor reports the datagram whose re-encoding panics. *)
 From V Require Import Model.Packet Proofs.Packet Proofs.RoundTrip.
 
 (* Whatever the decoder accepts without keys (any byte string, NTPv3/v4/v5,
@@ -20,7 +18,7 @@ Theorem C24_reencode_ok : forall (dec : oracle) (data : bytes) (p : packet) (c :
   deserialize dec NoKeys data = Ok (Accept p c) ->
   c = None /\
   exists b1, forall enc cap, blen b1 <= cap -> serialize enc None cap None p = Ok b1.
-Proof. exact (reencode_ok (repaired_intro eq_refl)). Qed.
+Proof. exact reencode_ok. Qed.
 
 (* non-vacuity and the fixed point on a concrete NTPv5 datagram with a draft
    identification and a reference-id request of 8 octets: accepted, re-encoded,
